@@ -88,3 +88,121 @@ package shimagent
 //@     arg(Cond.Wait, old(calls(Cond.Wait)), 0) == s.conds[msg] && mstate(pl(s.conds[msg].L)) == 0)
 //@   ensures [out-of-range-returns-at-once] msg >= 40 ==> (calls(Cond.Wait) == old(calls(Cond.Wait)) && calls(Locker.Lock) == old(calls(Locker.Lock)))
 //@   ensures calls(Cond.Broadcast) == old(calls(Cond.Broadcast)) && calls(Cond.Signal) == old(calls(Cond.Signal))
+
+//@ # ---------------------------------------------------------------- C10 / C09 / C07: certificates in memory, pass-through, hiding
+//@ import keyutil "github.com/theparanoids/ysshra/sshutils/key"
+//@ import keyid "github.com/theparanoids/ysshra/keyid"
+//@ # table key of a public key: SHA-256 of its wire blob
+//@ ghost func keyhash(k ssh.PublicKey) bytes = sha(blobid(k))
+
+//@ func hash(data)
+//@   ensures result == sha(contentOf(elems(data), off(data), len(data)))
+
+//@ func (*certificate).Marshal(c)
+//@   requires c != nil
+//@   ensures result == c.Blob
+
+//@ # filter: purge of expired / orphan certificates (its own contract is refined under C07)
+//@ func (*Server).filter(s)
+//@   flag logged
+//@   requires s != nil && inv(s) && wheld(s)
+//@   modifies mapof(s.certs), mapof(s.upstreamSSHCACertCache)
+//@   ensures wheld(s) && inv(s)
+//@   ensures err != nil ==> (inMemoryCerts == nil && inAgentKeys == nil)
+//@   ensures err == nil ==> inMemoryCerts == s.certs
+
+//@ func (*Server).remove(s, key)
+//@   flag logged
+//@   requires s != nil && inv(s) && wheld(s) && key != nil
+//@   modifies mapof(s.certs), mapof(s.upstreamSSHCACertCache)
+//@   let r0 = old(calls(Agent.Remove))
+//@   ensures wheld(s) && inv(s)
+//@   ensures [one-underlying-remove] calls(Agent.Remove) == r0 + 1 && arg(Agent.Remove, r0, 1) == key && arg(Agent.Remove, r0, 0) == s.agent
+//@   ensures [in-memory-entry-gone] !(keyhash(key) in dom(s.certs))
+//@   ensures [other-entries-kept] forall(h#hashcode, h != keyhash(key), ((h in dom(s.certs)) <==> old(h in dom(s.certs))) && s.certs[h] == old(s.certs[h]))
+//@   ensures [success-iff-something-was-removed] result == nil <==> (old(keyhash(key) in dom(s.certs)) || ret(Agent.Remove, r0, 0) == nil)
+//@   ensures [error-is-the-underlying-one] result != nil ==> result == ret(Agent.Remove, r0, 0)
+//@   ensures [cache-entry-dropped] (s.noUpstreamSSHCACert && result == nil) ==> !(keyhash(key) in dom(s.upstreamSSHCACertCache))
+//@   ensures [cache-otherwise-kept] forall(h#hashcode, h != keyhash(key) || !s.noUpstreamSSHCACert || result != nil,
+//@     (h in dom(s.upstreamSSHCACertCache)) <==> old(h in dom(s.upstreamSSHCACertCache)))
+
+//@ func (*Server).Remove(s, key)
+//@   requires s != nil && inv(s) && unheld(s)
+//@   modifies mstate(addrof(s.mu)), mapof(s.certs), mapof(s.upstreamSSHCACertCache)
+//@   ensures unheld(s) && inv(s)
+//@   ensures [locked-refuses] old(s.locked) ==> (result == errAgentLocked && calls(remove) == old(calls(remove)) && calls(Agent.Remove) == old(calls(Agent.Remove)) &&
+//@     forall(h#hashcode, true, ((h in dom(s.certs)) <==> old(h in dom(s.certs))) && ((h in dom(s.upstreamSSHCACertCache)) <==> old(h in dom(s.upstreamSSHCACertCache)))))
+//@   ensures [nil-key-refused] (!old(s.locked) && key == nil) ==> (result != nil && calls(remove) == old(calls(remove)))
+//@   ensures [removal-delegated] (!old(s.locked) && key != nil) ==> (calls(remove) == old(calls(remove)) + 1 && arg(remove, old(calls(remove)), 1) == key &&
+//@     arg(remove, old(calls(remove)), 0) == s && result == ret(remove, old(calls(remove)), 0))
+
+//@ func (*Server).Sign(s, key, data)
+//@   requires s != nil && inv(s) && unheld(s)
+//@   modifies mstate(addrof(s.mu)), mapof(s.certs), mapof(s.upstreamSSHCACertCache)
+//@   let w0 = old(calls(SignWithFlags))
+//@   ensures calls(SignWithFlags) == w0 + 1 && arg(SignWithFlags, w0, 0) == s && arg(SignWithFlags, w0, 1) == key && arg(SignWithFlags, w0, 2) == data &&
+//@     arg(SignWithFlags, w0, 3) == 0 && result0 == ret(SignWithFlags, w0, 0) && result1 == ret(SignWithFlags, w0, 1)
+
+//@ func (*Server).SignWithFlags(s, key, data, flags)
+//@   flag logged
+//@   requires s != nil && inv(s) && unheld(s)
+//@   modifies mstate(addrof(s.mu)), mapof(s.certs), mapof(s.upstreamSSHCACertCache)
+//@   let f0 = old(calls(filter))
+//@   let g0 = old(calls(ExtendedAgent.SignWithFlags))
+//@   let c0 = old(calls(keyutil.CastSSHPublicKeyToCertificate))
+//@   ensures unheld(s) && inv(s)
+//@   ensures [locked-refuses] old(s.locked) ==> (result0 == nil && result1 != nil && calls(ExtendedAgent.SignWithFlags) == g0 && calls(filter) == f0)
+//@   ensures [nil-key-refused] (!old(s.locked) && key == nil) ==> (result0 == nil && result1 != nil && calls(ExtendedAgent.SignWithFlags) == g0 && calls(filter) == f0)
+//@   ensures [purge-before-signing] (!old(s.locked) && key != nil) ==> (calls(filter) == f0 + 1 && arg(filter, f0, 0) == s)
+//@   ensures [purge-failure-surfaces] (!old(s.locked) && key != nil && ret(filter, f0, 2) != nil) ==> (result0 == nil && result1 == ret(filter, f0, 2) && calls(ExtendedAgent.SignWithFlags) == g0)
+//@   ensures [at-most-one-underlying-signature] calls(ExtendedAgent.SignWithFlags) <= g0 + 1
+//@   ensures [in-memory-certificate-signs-with-its-plain-key] (!old(s.locked) && key != nil && ret(filter, f0, 2) == nil &&
+//@     ret(keyutil.CastSSHPublicKeyToCertificate, c0, 1) == nil && (keyhash(key) in dom(s.certs))) ==>
+//@     (calls(ExtendedAgent.SignWithFlags) == g0 + 1 && arg(ExtendedAgent.SignWithFlags, g0, 0) == s.agent &&
+//@      arg(ExtendedAgent.SignWithFlags, g0, 1) == ret(keyutil.CastSSHPublicKeyToCertificate, c0, 0).Key &&
+//@      arg(ExtendedAgent.SignWithFlags, g0, 2) == data && arg(ExtendedAgent.SignWithFlags, g0, 3) == flags &&
+//@      result0 == ret(ExtendedAgent.SignWithFlags, g0, 0) && result1 == ret(ExtendedAgent.SignWithFlags, g0, 1))
+//@   ensures [hidden-upstream-certificate-is-not-found] (!old(s.locked) && key != nil && ret(filter, f0, 2) == nil &&
+//@     ret(keyutil.CastSSHPublicKeyToCertificate, c0, 1) == nil && !(keyhash(key) in dom(s.certs)) &&
+//@     keyid.decOK(ret(keyutil.CastSSHPublicKeyToCertificate, c0, 0).KeyId) && s.noUpstreamSSHCACert) ==>
+//@     (result0 == nil && result1 == errAgentNotFoundKey && calls(ExtendedAgent.SignWithFlags) == g0)
+//@   ensures [everything-else-passes-through-unchanged] (!old(s.locked) && key != nil && ret(filter, f0, 2) == nil &&
+//@     (ret(keyutil.CastSSHPublicKeyToCertificate, c0, 1) != nil ||
+//@      (!(keyhash(key) in dom(s.certs)) && !(keyid.decOK(ret(keyutil.CastSSHPublicKeyToCertificate, c0, 0).KeyId) && s.noUpstreamSSHCACert)))) ==>
+//@     (calls(ExtendedAgent.SignWithFlags) == g0 + 1 && arg(ExtendedAgent.SignWithFlags, g0, 0) == s.agent && arg(ExtendedAgent.SignWithFlags, g0, 1) == key &&
+//@      arg(ExtendedAgent.SignWithFlags, g0, 2) == data && arg(ExtendedAgent.SignWithFlags, g0, 3) == flags &&
+//@      result0 == ret(ExtendedAgent.SignWithFlags, g0, 0) && result1 == ret(ExtendedAgent.SignWithFlags, g0, 1))
+
+//@ func (*Server).Forward(s, req)
+//@   requires s != nil && inv(s) && unheld(s)
+//@   modifies mstate(addrof(s.mu)), rpos(pl(s.conn)), hacc(pl(s.conn))
+//@   let w0 = old(calls(shimagent.write))
+//@   let r0 = old(calls(shimagent.read))
+//@   ensures unheld(s)
+//@   ensures [request-relayed-as-one-frame] calls(shimagent.write) == w0 + 1 && pl(arg(shimagent.write, w0, 0)) == pl(s.conn) && arg(shimagent.write, w0, 1) == req
+//@   ensures [write-failure-surfaces] ret(shimagent.write, w0, 0) != nil ==> (resp == nil && err == ret(shimagent.write, w0, 0) && calls(shimagent.read) == r0)
+//@   ensures [reply-is-the-next-frame] ret(shimagent.write, w0, 0) == nil ==> (calls(shimagent.read) == r0 + 1 && pl(arg(shimagent.read, r0, 0)) == pl(s.conn) &&
+//@     resp == ret(shimagent.read, r0, 0) && err == ret(shimagent.read, r0, 1))
+
+//@ func read(c)
+//@   flag logged
+//@   requires c != nil
+//@   modifies rpos(pl(c))
+//@   ensures [alloc-bound] allocmax() <= 16777216
+//@   ensures err != nil ==> data == nil
+//@   ensures [frame-content] err == nil ==> (len(data) == rdata(pl(c))[old(rpos(pl(c)))] * 16777216 + rdata(pl(c))[old(rpos(pl(c))) + 1] * 65536 +
+//@       rdata(pl(c))[old(rpos(pl(c))) + 2] * 256 + rdata(pl(c))[old(rpos(pl(c))) + 3] && len(data) <= 16777216 &&
+//@     rpos(pl(c)) == old(rpos(pl(c))) + 4 + len(data) &&
+//@     forall(j, 0 <= j && j < len(data), data[j] == rdata(pl(c))[old(rpos(pl(c))) + 4 + j]))
+
+//@ func write(c, data)
+//@   flag logged
+//@   requires c != nil
+//@   modifies hacc(pl(c))
+//@   let n0 = old(calls(Writer.Write))
+//@   ensures [oversize-refused] len(data) > 16777216 ==> err != nil && calls(Writer.Write) == n0
+//@   ensures [prefix-then-body] (len(data) <= 16777216 && err == nil) ==> (calls(Writer.Write) == n0 + 2 &&
+//@     arg(Writer.Write, n0, 0) == c && arg(Writer.Write, n0 + 1, 0) == c && len(arg(Writer.Write, n0, 1)) == 4 &&
+//@     argc(Writer.Write, n0, 1)[off(arg(Writer.Write, n0, 1))] * 16777216 + argc(Writer.Write, n0, 1)[off(arg(Writer.Write, n0, 1)) + 1] * 65536 +
+//@       argc(Writer.Write, n0, 1)[off(arg(Writer.Write, n0, 1)) + 2] * 256 + argc(Writer.Write, n0, 1)[off(arg(Writer.Write, n0, 1)) + 3] == len(data) &&
+//@     arg(Writer.Write, n0 + 1, 1) == data && argc(Writer.Write, n0 + 1, 1) == elems(data))
